@@ -3,9 +3,11 @@
 
     c20.murmur       seed hex            -> decimal | err:…                  (Model.Bloom.murmurHash3)
     c20.spec.murmur  seed hex            -> decimal                          (Spec.Bloom.murmur3)
-    c20.ctor         xspec yspec         -> "size k" | err:…                 (Model.Bloom.create; spec = r:<num>:<den> | e:<family>)
+    c20.ctor         nElements rate log(rate) 1/ln2^2 ln2   (rationals as num den pairs)
+                                         -> "size k" | err:…                 (Model.Bloom.createPy decides the exceptions)
     c20.hist         init ops            -> one token per op, ','-joined     (Model)
-    c20.spec.hist    init ops            -> same, computed on the set-of-bit-indices Spec
+    c20.spec.hist    init ops            -> same, computed on the set-of-bit-indices Spec; `too-large` when
+                                            data is non-empty and k > 100000 (not evaluated, not compared)
 
     init := n:<nElements>:<rate>:<len>:<k>:<tweak>:<flags>   fresh filter of <len> zero bytes
           | w:<hex>                                          CBloomFilter.deserialize(hex)
@@ -67,26 +69,57 @@ def modelInit? (s : String) : Option (Except String Filter) :=
 
 def b01 (b : Bool) : String := if b then "1" else "0"
 
-def modelRun (f : Filter) (ops : List HOp) (acc : Array String) : Array String :=
-  match ops with
-  | [] => acc
-  | op :: rest =>
-    match op with
-    | .ins x => match Model.Bloom.insertElem f x with
-        | .ok g => modelRun g rest (acc.push ".")
-        | .error e => acc.push (errTok e)
-    | .has x => match Model.Bloom.containsElem f x with
-        | .ok b => modelRun f rest (acc.push (b01 b))
-        | .error e => acc.push (errTok e)
-    | .dump => modelRun f rest (acc.push (toHex f.vData))
-    | .ser => match Model.Bloom.ser f with
-        | .ok b => modelRun f rest (acc.push (toHex b))
-        | .error e => acc.push (errTok e)
-    | .reload => match Model.Bloom.reload f with
-        | .ok g => modelRun g rest (acc.push ".")
-        | .error e => acc.push (errTok e)
-    | .within => modelRun f rest (acc.push (b01 (Model.Bloom.isWithinSizeConstraints f)))
-    | .params => modelRun f rest (acc.push s!"{f.nHashFuncs}/{f.nTweak}/{f.nFlags}")
+def toOp? : HOp → Option Model.Bloom.Op
+  | .ins x => some (.insert x)
+  | .reload => some .reload
+  | _ => none
+
+/-- the longest prefix of state-changing ops (inserts, round trips), as `Model.Bloom.Op`s -/
+def takeOps : List HOp → List Model.Bloom.Op × List HOp
+  | [] => ([], [])
+  | h :: rest =>
+      match toOp? h with
+      | some o => let (os, r) := takeOps rest; (o :: os, r)
+      | none => ([], h :: rest)
+
+/-- the first `n` with `run f (ops.take n)` failing; `run` is the only thing that advances the state -/
+def firstFailure (f : Filter) (ops : List Model.Bloom.Op) : Nat → Nat × Exc
+  | 0 => (0, .py "unreachable")
+  | fuel + 1 =>
+      let n := ops.length - fuel
+      match Model.Bloom.run f (ops.take n) with
+      | .error e => (n, e)
+      | .ok _ => firstFailure f ops fuel
+
+/-- every state transition goes through `Model.Bloom.run` (the function `no_false_negative`,
+    `run_ok`, `bits_after_history` are about); queries are evaluated on the state it returns -/
+def modelRun (f : Filter) (ops : List HOp) (acc : Array String) (fuel : Nat) : Array String :=
+  match fuel with
+  | 0 => acc
+  | fuel + 1 =>
+    match ops with
+    | [] => acc
+    | op :: rest =>
+      match toOp? op with
+      | some _ =>
+          let (seg, rest') := takeOps (op :: rest)
+          match Model.Bloom.run f seg with
+          | .ok g => modelRun g rest' (acc ++ Array.replicate seg.length ".") fuel
+          | .error _ =>
+              let (n, e) := firstFailure f seg seg.length
+              (acc ++ Array.replicate (n - 1) ".").push (errTok e)
+      | none =>
+        match op with
+        | .has x => match Model.Bloom.containsElem f x with
+            | .ok b => modelRun f rest (acc.push (b01 b)) fuel
+            | .error e => acc.push (errTok e)
+        | .dump => modelRun f rest (acc.push (toHex f.vData)) fuel
+        | .ser => match Model.Bloom.ser f with
+            | .ok b => modelRun f rest (acc.push (toHex b)) fuel
+            | .error e => acc.push (errTok e)
+        | .within => modelRun f rest (acc.push (b01 (Model.Bloom.isWithinSizeConstraints f))) fuel
+        | .params => modelRun f rest (acc.push s!"{f.nHashFuncs}/{f.nTweak}/{f.nFlags}") fuel
+        | _ => acc
 
 /-! ### Spec: the filter is the set of its bit indices (one Bool per bit) -/
 
@@ -163,14 +196,6 @@ def mkRat? (n d : String) : Option Rat := do
   let d ← parseNat? d
   if d = 0 then none else pure ((n : Rat) / (d : Rat))
 
-/-- `r:<num>:<den>` a value, `e:valueerr` | `e:py:<Class>` the float expression raises -/
-def parseFloatSpec? (s : String) : Option (Res Rat) :=
-  match s.splitOn ":" with
-  | ["r", n, d] => (mkRat? n d).map .ok
-  | ["e", "valueerr"] => some (.error .valueerr)
-  | ["e", "py", cls] => some (.error (.py cls))
-  | _ => none
-
 def handle (op : String) (args : List String) : Option String :=
   match op, args with
   | "c20.murmur", [seed, d] => some <| match parseNat? seed, parseHex? d with
@@ -179,19 +204,23 @@ def handle (op : String) (args : List String) : Option String :=
   | "c20.spec.murmur", [seed, d] => some <| match parseNat? seed, parseHex? d with
       | some s, some d => if s < 2 ^ 32 then toString (Spec.Bloom.murmur3 (UInt32.ofNat s) d).toNat else badArgs
       | _, _ => badArgs
-  | "c20.ctor", [xs, ys] => some <| match parseFloatSpec? xs, parseFloatSpec? ys with
-      | some x, some y =>
-          Res.render ((Model.Bloom.create x (fun _ => y) 0 0).map
+  | "c20.ctor", [n, rn, rd, ln, ld, cn, cd, l2n, l2d] => some <|
+      match parseInt? n, mkRat? rn rd, mkRat? ln ld, mkRat? cn cd, mkRat? l2n l2d with
+      | some n, some rate, some logRate, some c, some l2 =>
+          Res.render ((Model.Bloom.createPy n rate logRate c l2 0 0).map
             (fun f => s!"{f.vData.length} {f.nHashFuncs}"))
-      | _, _ => badArgs
+      | _, _, _, _, _ => badArgs
   | "c20.hist", [init, ops] => some <|
       match modelInit? init, (splitList ops ',').mapM parseOp? with
-      | some (.ok f), some ops => joinToks (modelRun f ops #[])
+      | some (.ok f), some ops => joinToks (modelRun f ops #[] (ops.length + 1))
       | some (.error e), some _ => e
       | _, _ => badArgs
   | "c20.spec.hist", [init, ops] => some <|
       match specInit? init, (splitList ops ',').mapM parseOp? with
-      | some f, some ops => joinToks (specRun f ops #[])
+      | some f, some ops =>
+          -- the set-of-bits Spec enumerates all k scheduled bits; beyond this bound it is not evaluated
+          -- (the harness does not compare then; the Model op has no such bound)
+          if f.nbytes ≠ 0 ∧ f.k > 100000 then "too-large" else joinToks (specRun f ops #[])
       | _, _ => badArgs
   | _, _ => none
 
